@@ -164,8 +164,41 @@ def stepPb (ts : List String) : Option String :=
       pure (toString (popcountBuf bs))
   | _ => none
 
+def stepMixed (ts : List String) : Option String :=
+  match ts with
+  | op :: fn :: tn :: tk :: args => do
+      let (wn, sn) ← typeOf tn
+      let (wk, sk) ← typeOf tk
+      let _ ← evalMixed fn wn sn wk sk 0 1
+      match op with
+      | "vm" =>
+          let a ← args.mapM String.toNat?
+          if a.isEmpty || a.length % 2 ≠ 0 then none else
+          let rec pairs : List Nat → List (Nat × Nat)
+            | x :: y :: r => (x, y) :: pairs r
+            | _ => []
+          let ps := pairs a
+          if ps.any (fun p => p.1 ≥ 2 ^ wn || p.2 ≥ 2 ^ wk) then none else
+          some (" ".intercalate (ps.map fun p => match evalMixed fn wn sn wk sk p.1 p.2 with | some r => showR r | none => "?"))
+      | "sm" =>
+          if !args.isEmpty then none else
+          let acc := (structured wn).foldl (fun (s : Chk) x =>
+            (structured wk).foldl (fun (s : Chk) y =>
+              match evalMixed fn wn sn wk sk x y with
+              | some .skip => { s with skip := s.skip + 1, h := fold s.h skipMark }
+              | some (.val v) => { s with n := s.n + 1, h := fold s.h (lowBits v) }
+              | _ => { s with bad := true }) s) {}
+          let rt := (if commSg wn sn wk sk then "i" else "u") ++ toString (commW wn wk)
+          some (if acc.bad then "FUEL" else s!"R={rt} {acc.show}")
+      | _ => none
+  | _ => none
+
 def step (s : St) (ts : List String) : St × String :=
   match ts with
+  | "vm" :: _ | "sm" :: _ =>
+      match stepMixed ts with
+      | some out => (s, out)
+      | none => (s, "bad-op")
   | "pb" :: _ =>
       match stepPb ts with
       | some out => (s, out)
